@@ -608,6 +608,59 @@ fn part_c(rng: &mut Rng, n: u64, out: &mut Out) {
     }
 }
 
+/// Part D: a fork switch (reorg section + sampled section) onto a branch whose epoch difficulties agree with the proven chain at both
+/// end points but make an impossible excursion in between (64x / 1000x for one to three epochs): shape, chain roots, PoW, the tau
+/// check of the end points, continuity and the MMR proof all pass; only the total-difficulty range check can reject it.
+fn part_d(rng: &mut Rng, n: u64, out: &mut Out) {
+    use ckb_types::utilities::difficulty_to_compact;
+    let consensus = dummy_consensus();
+    let peer = PeerIndex::new(3);
+    let tau = 2u64;
+    for i in 0..n {
+        let last_n = *rng.pick(&[2u64, 3, 5]);
+        let elen = rng.range(3, 6);
+        let d = rng.range(2, 20);
+        let plan = flat_plan(14, elen, d);
+        let total = plan_blocks(&plan);
+        let main = Rc::new(SynChain::new_with_activation(plan.clone(), total, 1, 0));
+        let fe = rng.range(2, 4);
+        let first = fe * elen + rng.range(0, elen - 1);
+        let fork_at = first - rng.range(2, last_n.max(2));
+        let excursion = match rng.below(3) { 0 => 1u64, 1 => 64, _ => 1000 };
+        let k = rng.range(1, 3);
+        let mut plan2 = plan.clone();
+        for e in (fe + 1)..(fe + 1 + k) { plan2[e as usize].compact = difficulty_to_compact(U256::from(d * excursion)); }
+        let tip_epoch = fe + 1 + k + rng.range(0, 2);
+        let tip = (tip_epoch * elen + rng.range(0, elen - 1)).min(total - 2);
+        let fork = Rc::new(main.fork(fork_at, tip - fork_at + 2, 56, Some(plan2)));
+        let mut c = Client::new(&main, &consensus, last_n, 1);
+        c.connect(peer);
+        let ok = (|| -> Option<packed::GetLastStateProof> {
+            let o = c.recv(peer, &prover::last_state_message(&main, first));
+            let mut r = find_request(&o)?;
+            for _ in 0..2 {
+                let resp = prover::respond(&main, &r)?;
+                let o = c.recv(peer, &packed::LightClientMessage::new_builder().set(resp).build());
+                if o.ban.is_some() || o.panicked { return None; }
+                match find_request(&o) { Some(r2) => r = r2, None => break }
+            }
+            let o = c.recv(peer, &prover::last_state_message(&fork, tip));
+            if o.ban.is_some() { return None; }
+            let o = c.tick(REFRESH_PEERS_TOKEN, peer);
+            find_request(&o)
+        })();
+        let req = match ok { Some(r) => r, None => { out.stat(&format!("excursion_setup_failure_{}", i), "no request for the other branch"); continue; } };
+        let plan = match prover::plan_response(&fork, &req) { Some(p) => p, None => continue };
+        let numbers = plan.numbers();
+        let base = Resp { last: fork.packed_vheader(plan.last), headers: numbers.iter().map(|x| fork.packed_vheader(*x)).collect(), proof: fork.proof(plan.last, &numbers).into_iter().collect() };
+        let legal = excursion == 1;
+        let descr = format!("main branch: {} epochs of {} blocks at difficulty {}; client proven at #{} (epoch {}); the peer switches to a branch forking at #{} whose epochs {}..{} run at {}x the difficulty, tip #{} (epoch {}), last_n={}; its answer = reorg {:?} sampled {:?} last-N {:?}",
+            14, elen, d, first, fe, fork_at, fe + 1, fe + k, excursion, tip, tip_epoch, last_n, plan.reorg, plan.sampled, plan.last_n);
+        handler_case(out, &format!("excursion-{}", i), &["handler", "difficulty-excursion", if legal { "legal-branch" } else { "impossible-total-difficulty" }, if plan.reorg.is_empty() { "no-reorg-section" } else { "reorg-section" }, if plan.sampled.is_empty() { "no-samples" } else { "sampled" }],
+            &mut c, peer, &base, legal, legal, tau, &descr);
+    }
+}
+
 pub(crate) fn run(seed: u64, n: u64, out: &mut Out) {
     let guard = ckb_systemtime::faketime();
     guard.set_faketime(T0);
@@ -615,4 +668,5 @@ pub(crate) fn run(seed: u64, n: u64, out: &mut Out) {
     part_a(&mut rng, n, out);
     part_b(&mut rng, (n / 4).max(10), out);
     part_c(&mut rng, (n / 10).max(12), out);
+    part_d(&mut rng, (n / 10).max(12), out);
 }
